@@ -5,6 +5,8 @@
 (* inner runner when the object is a measurement-tracking wrapper).        *)
 (*                                                                         *)
 (* kinds:  "plain"  BaseCircuitRunner subclass on the default batch path   *)
+(*         "plainx" the same, but the device delivers shots in blocks of 4 *)
+(*                  (MORE shots than requested are allowed)                *)
 (*         "wf"     BaseWavefunctionSimulator subclass (SymbolicSimulator  *)
 (*                  included); counters move per native/non-native segment *)
 (*         "trk"    MeasurementTrackingBackend around an inner runner      *)
@@ -44,11 +46,13 @@ Work(c) == Walk(c.nat, 1, "none", [segs |-> 0, nat |-> 0])
 
 Rej  == [out |-> "rejected", dc |-> 0, dj |-> 0, res |-> <<>>]
 Shot(n, c) == [n |-> n, w |-> c.w]
+IsPlain(k) == k \in {"plain", "plainx"}
+Delivered(k, n) == IF k = "plainx" THEN 4 * ((n + 3) \div 4) ELSE n
 
 \* ---- base-class runners -------------------------------------------------------------------------
 BaseRun(k, c, n) ==
   IF n <= 0 THEN Rej
-  ELSE IF k = "plain" THEN [out |-> "ok", dc |-> 1, dj |-> 1, res |-> <<Shot(n, c)>>]
+  ELSE IF IsPlain(k) THEN [out |-> "ok", dc |-> 1, dj |-> 1, res |-> <<Shot(Delivered(k, n), c)>>]
   ELSE IF c.sym THEN Rej                                     \* refused before anything runs
   ELSE [out |-> "ok", dc |-> Work(c).nat, dj |-> Work(c).segs, res |-> <<Shot(n, c)>>]
 
@@ -70,7 +74,7 @@ BaseBatch(k, cs, ns) ==
 
 BaseWf(k, c) == [out |-> "ok", dc |-> Work(c).nat, dj |-> Work(c).segs, res |-> <<Shot(0, c)>>]
 BaseDist(k, c, ns) ==
-  IF ns.mode = "none" THEN (IF k = "plain" THEN Rej ELSE BaseWf(k, c))
+  IF ns.mode = "none" THEN (IF IsPlain(k) THEN Rej ELSE BaseWf(k, c))
   ELSE LET b == BaseRun(k, c, ns.v[1]) IN            \* a distribution carries no shots: only its width is a result
        IF b.out = "ok" THEN [b EXCEPT !.res = <<Shot(0, c)>>] ELSE b
 
@@ -120,7 +124,7 @@ Calls(native, k, ik) ==
   \cup {[op |-> "batch", cs |-> cs, ns |-> OneN(n)] : cs \in SeqsOf(CC, 0, MaxBatch), n \in {0, 2}}
   \cup {[op |-> "batch", cs |-> cs, ns |-> [mode |-> "list", v |-> v]] : cs \in SeqsOf(CC, 0, MaxBatch), v \in SeqsOf({0, 2, 3}, 0, MaxBatch)}
   \cup {[op |-> "dist", cs |-> <<c>>, ns |-> OneN(n)] : c \in CC, n \in {0, 2}}
-  \cup {[op |-> "dist", cs |-> <<c>>, ns |-> NoneN] : c \in {c \in CC : ~c.sym \/ k = "plain" \/ (k = "trk" /\ ik = "plain")}}
+  \cup {[op |-> "dist", cs |-> <<c>>, ns |-> NoneN] : c \in {c \in CC : ~c.sym \/ IsPlain(k) \/ (k = "trk" /\ IsPlain(ik))}}
   \cup (IF k = "wf" THEN {[op |-> o, cs |-> <<c>>, ns |-> NoneN] : o \in {"wf", "expval"}, c \in {c \in CC : ~c.sym}} ELSE {})
 
 Init == /\ rk \in RunnerKinds
@@ -147,13 +151,13 @@ PathDepth == TLCGet("level") <= Cap
 Bounded == cnt.own.j <= Cap /\ cnt.inner.j <= Cap
 
 \* ---- what the property promises -----------------------------------------------------------------------
-IsBase == rk[1] \in {"plain", "wf"}
+IsBase == rk[1] \in {"plain", "plainx", "wf"}
 CountersMonotone == [][/\ cnt'.own.c >= cnt.own.c /\ cnt'.own.j >= cnt.own.j
                        /\ cnt'.inner.c >= cnt.inner.c /\ cnt'.inner.j >= cnt.inner.j]_vars
 RejectedLeavesCountersUnchanged == [][(IsBase /\ ev'.out = "rejected") => cnt' = cnt]_vars
 \* independent definition of the work: segments = positions where the native flag changes (or starts)
 SegStarts(c) == {i \in 1..Len(c.nat) : i = 1 \/ c.nat[i] # c.nat[i-1]}
-WorkDef(k, c) == IF k = "plain" THEN [c |-> 1, j |-> 1]
+WorkDef(k, c) == IF IsPlain(k) THEN [c |-> 1, j |-> 1]
                  ELSE [c |-> Cardinality({i \in SegStarts(c) : c.nat[i]}), j |-> Cardinality(SegStarts(c))]
 RECURSIVE SumWork(_, _)
 SumWork(k, cs) == IF cs = <<>> THEN Zero ELSE LET a == WorkDef(k, Head(cs)) b == SumWork(k, Tail(cs)) IN [c |-> a.c + b.c, j |-> a.j + b.j]
@@ -204,7 +208,8 @@ CircuitsAll == CircuitsSmall \cup
                    [ops |-> <<"p", "g", "g", "p">>, w |-> 2, sym |-> FALSE],
                    [ops |-> <<"p">>, w |-> 1, sym |-> FALSE] }
 KindsAll == { <<"plain", "none", {}>>, <<"wf", "none", {"g", "p"}>>, <<"wf", "none", {"g"}>>, <<"wf", "none", {"p"}>>,
-              <<"wf", "none", {}>>, <<"trk", "plain", {}>>, <<"trk", "wf", {"g", "p"}>> }
+              <<"wf", "none", {}>>, <<"trk", "plain", {}>>, <<"trk", "wf", {"g", "p"}>>,
+              <<"plainx", "none", {}>>, <<"trk", "plainx", {}>> }
 
 Emit == IF ~Emitting THEN TRUE ELSE
   PrintT(ToJson([pid |-> ev.pid, lvl |-> TLCGet("level"), rk |-> <<rk[1], rk[2], [g |-> "g" \in rk[3], p |-> "p" \in rk[3]]>>,
